@@ -467,9 +467,79 @@ func genEntries(r *rand.Rand, n, nSeries int, uid *int64, keyDomain int64) []ven
 	return out
 }
 
+// repeatedPayloads: the index de-duplicates equal payloads inside a block, but an entry outside the requested key
+// range must not suppress the in-range entry that carries the same payload. Every payload is written twice in
+// one series and one part; each query's bounds hold exactly one of the two, which therefore has to come back.
+func repeatedPayloads(s *verifh.Sink, base string) {
+	for c := 0; c < verifh.Pick(40, 600); c++ {
+		r := verifh.Rand("sidxdup", c)
+		dir := filepath.Join(base, fmt.Sprint("dup", c))
+		os.MkdirAll(dir, 0o755)
+		v, err := openVSidx(dir)
+		if err != nil {
+			s.Violation("sidx:open", map[string]any{"err": err.Error()})
+			continue
+		}
+		n := 2 + r.Intn(12)
+		var es []ventry
+		for i := 0; i < n; i++ { // low keys 0..n-1, high keys 1000..1000+n-1, same payload for i in both halves
+			es = append(es, ventry{sid: 1, key: int64(i), data: fmt.Sprint("p", i), lat: 1, ts: 1000}, ventry{sid: 1, key: int64(1000 + i), data: fmt.Sprint("p", i), lat: 1, ts: 1000})
+		}
+		r.Shuffle(len(es), func(a, b int) { es[a], es[b] = es[b], es[a] })
+		id, werr := v.write(es, false)
+		bad := ""
+		if werr != nil {
+			bad = "write failed: " + werr.Error()
+		}
+		if bad == "" && r.Intn(2) == 0 {
+			if ferr := v.flush([]uint64{id}); ferr != nil {
+				bad = "flush failed: " + ferr.Error()
+			}
+		}
+		for _, q := range []struct {
+			lo, hi int64
+			asc    bool
+		}{{500, 5000, true}, {500, 5000, false}, {-10, 500, true}, {-10, 500, false}} {
+			if bad != "" {
+				break
+			}
+			lo, hi := q.lo, q.hi
+			vq := vquery{sids: []common.SeriesID{1}, minKey: &lo, maxKey: &hi, asc: q.asc}
+			sy, st, _, rerr := v.run(vq)
+			if rerr != nil {
+				bad = rerr.Error()
+				break
+			}
+			for name, hits := range map[string][]vhit{"QuerySync": sy, "StreamingQuery": st} {
+				got := map[string]int64{}
+				for _, h := range hits {
+					got[h.data] = h.key
+				}
+				for i := 0; i < n; i++ {
+					wantKey := int64(i)
+					if lo == 500 {
+						wantKey = int64(1000 + i)
+					}
+					if k, ok := got[fmt.Sprint("p", i)]; !ok || k != wantKey {
+						bad = fmt.Sprintf("%s keys [%d,%d] asc=%v: the only in-range entry of payload p%d (key %d) is missing (returned %d entries)", name, lo, hi, q.asc, i, wantKey, len(hits))
+					}
+				}
+			}
+		}
+		s.Case(fmt.Sprint("dup/", c, n), true)
+		s.Count("sidx.repeated_payload_cases", 1)
+		if bad != "" {
+			s.Violation("sidx:in-range-entry-suppressed-by-an-out-of-range-entry-with-the-same-payload", map[string]any{"case": c, "payloads": n, "discrepancy": bad})
+		}
+		v.s.Close()
+		os.RemoveAll(dir)
+	}
+}
+
 func TestVerifSIDX(t *testing.T) {
 	s := verifh.S()
 	base := filepath.Join(verifh.Scratch(), "sidx")
+	repeatedPayloads(s, base)
 	var uid int64
 	nHist := verifh.Pick(50, 800)
 	for h := 0; h < nHist; h++ {
